@@ -25,7 +25,12 @@ def inputs(ctx):
            ("sample-issue-140", corpus.test_pdb_text("sample-issue-140")),
            ("frag-3SGB-E0+15", corpus.fragment("3SGB", "E", 0, 15)),
            ("frag-1HPX-A6+4", corpus.fragment("1HPX", "A", 6, 4)), ("frag-4DFR-A30+5", corpus.fragment("4DFR", "A", 30, 5))]
+    # multi-conformation inputs whose conformations give different pKa values (profiles are functions of AVR)
+    from . import c08
+    multi = dict(c08.constructed(ctx))
+    out += [(k, multi[k]) for k in ("alt-rotamers-AB", "mutant-A-ASP-B-ASN") if k in multi]
     if ctx.thorough():
+        out += [(k, multi[k]) for k in ("model2-missing-atoms", "alt-digits-12") if k in multi]
         out += [(n, corpus.test_pdb_text(n)) for n in ("3SGB", "1FTJ-Chain-A", "4DFR", "conf-alt-AB", "conf-model-mutant")]
         out += [("frag-1FTJ-A100+30", corpus.fragment("1FTJ-Chain-A", "A", 100, 30)),
                 ("frag-4DFR-A0+25", corpus.fragment("4DFR", "A", 0, 25))]
@@ -41,7 +46,7 @@ def real_records(ctx):
     ins = inputs(ctx)
     combos = []
     # every grid and every window at least once on a small input; big inputs get the default and one random combo
-    small = [x for x in ins if x[0].startswith("frag") or x[0] in ("none", "sample-issue-140", "3SGB-subset")]
+    small = [x for x in ins if x[0].startswith(("frag", "alt-", "mutant-", "model2")) or x[0] in ("none", "sample-issue-140", "3SGB-subset")]
     for gi, g in enumerate(grids):
         combos.append((small[gi % len(small)], g, wins[gi % len(wins)]))
     for wi, w in enumerate(wins):
